@@ -18,7 +18,7 @@ PROPS = {
                              "readJournal (enc bs ++ take n (enc b) ++ zeros m) = (bs, |enc bs|, no error)",
             "c03_repair_then_append": "the file truncated to finalLen, with any batch b' appended, reads back as bs ++ [b']",
         },
-        engines=[dict(bin="journal", args=["--mode", "c03"], cases_quick=48, cases_thorough=240,
+        engines=[dict(bin="journal", args=["--mode", "c03"], cases_quick=48, cases_thorough=96,
                       profiles=["release"], profiles_thorough=["release", "dev"]),
                  dict(bin="dbeng", args=["--mode", "c03"], cases_quick=320, cases_thorough=6000, profiles=["release"])],
         rule="dbeng: crash images of programs with multi-keyspace batches where the keyspaces are flushed at different times "
@@ -52,7 +52,7 @@ PROPS = {
                              "has the announced item count, is exactly the payload decoded in between, and the stored checksum = h(re-encoding of exactly that payload) "
                              "(different data can only be read through a hash collision)",
         },
-        engines=[dict(bin="journal", args=["--mode", "c15"], cases_quick=48, cases_thorough=200,
+        engines=[dict(bin="journal", args=["--mode", "c15"], cases_quick=48, cases_thorough=96,
                       profiles=["release"], profiles_thorough=["release", "dev"])],
         rule="case = random program as for C03 under journal compression lz4 or none; model writer bytes == file bytes; "
              "model reader == real reader == batches written; reopen under the *other* compression setting; "
@@ -313,7 +313,7 @@ PROPS["C02"] = dict(
         "c02_crash_mid_operation": "the in-flight batch is in the journal completely or not at all (c03_torn_tail); both cases recover to the state of a prefix of the committed operations",
     },
     engines=[dict(bin="dbeng", args=["--mode", "c02"], cases_quick=480, cases_thorough=10000, profiles=["release"]),
-             dict(bin="journal", args=["--mode", "c03"], cases_quick=24, cases_thorough=96, profiles=["release"]),
+             dict(bin="journal", args=["--mode", "c03"], cases_quick=24, cases_thorough=48, profiles=["release"]),
              dict(bin="fault", args=["--mode", "c02"], cases_quick=48, cases_thorough=240, profiles=["release"])],
     rule="fault --mode c02: journal workloads on a plain, single-writer-transactional or optimistic-transactional database (inserts, removes, clears, batches and "
          "write transactions with every durability level or the default, persists, journal rotations; manual and automatic journal persist) killed before a "
